@@ -274,6 +274,11 @@ class Cfg:
                 L.append("    AccountingResponse on")
                 if len(r["name"]) % 2 == 0:       # … and a log line for each Accounting-Request so answered (what is logged: C18; that
                     L.append("    AccountingLog on")   # making the line reads no memory it should not: C07)
+            elif len(r["name"]) % 3 == 0:
+                # AccountingLog without AccountingResponse (absent or written out as off): nothing is answered, so nothing is logged
+                L.append("    AccountingLog on")
+                if len(r["name"]) % 2 == 0:
+                    L.append("    AccountingResponse off")
             L.append("}")
         L += ["#tail"] + tail if tail else []
         return "\n".join(L) + "\n"
